@@ -30,9 +30,9 @@ class Adapter(EnvAdapter):
         if tier == "quick":
             return [
                 # default size; random play dies at once, masked play fills the grid, survive plays on
-                c("r10c10_t400", 10, 10, 400, episodes=4, max_steps=45, probe_every=3, policies=mixed),
+                c("r10c10_t400", 10, 10, 400, episodes=4, max_steps=45, probe_every=3, policies=mixed, default_ctor=True),
                 # the default time limit reached by the line-clearing policy (probes thinned out)
-                c("r10c10_t400_long", 10, 10, 400, episodes=1, max_steps=403, probe_every=45, policies=["survive"]),
+                c("r10c10_t400_long", 10, 10, 400, episodes=1, max_steps=403, probe_every=45, policies=["survive"], default_ctor=True),
                 c("r4c4_t3", 4, 4, 3, episodes=8, max_steps=6, policies=mixed),
                 c("r4c4_t400", 4, 4, 400, episodes=6, max_steps=30, policies=["survive", "masked", "mostly_masked"]),
                 c("r6c5_t7", 6, 5, 7, episodes=8, max_steps=10, policies=["survive", "masked", "survive", "random"]),
@@ -44,7 +44,7 @@ class Adapter(EnvAdapter):
                 c("r6c6_t400_pre", 6, 6, 400, episodes=8, max_steps=4, prefilled=True, policies=["well", "masked"]),
             ]
         out = [
-            c("r10c10_t400", 10, 10, 400, episodes=24, max_steps=80, probe_every=2, policies=mixed),
+            c("r10c10_t400", 10, 10, 400, episodes=24, max_steps=80, probe_every=2, policies=mixed, default_ctor=True),
             c("r10c10_t400_long", 10, 10, 400, episodes=6, max_steps=403, probe_every=25, policies=["survive"]),
             c("r20c10_t400_long", 20, 10, 400, episodes=3, max_steps=403, probe_every=25, policies=["survive"]),
             c("r4c4_t3", 4, 4, 3, episodes=60, max_steps=6, policies=mixed),
@@ -70,6 +70,8 @@ class Adapter(EnvAdapter):
 
         if cfg.get("prefilled"):
             return _prefilled_cls()(**cfg["ctor"])
+        if cfg.get("default_ctor"):       # the documented defaults come from the library's own no-argument constructor
+            return Tetris()
         return Tetris(**cfg["ctor"])
 
     def cfg_record(self, cfg, env):
